@@ -323,11 +323,12 @@ CONFIG = {
                         "Model/GoInt.lean reads Go's int64 +, -, *, <<, >>, & (2^j-1), | and byte() correctly where the generated side conditions hold",
                         "Model/GoU64.lean reads Go's uint64 operators, bits.Mul64/Add64 and binary.LittleEndian correctly; felimbs' functional reading "
                         "of pointer code is right where its alias check passes"],
-        "extractors": [{"name": "sclimbs", "out": "ScLimbs.lean"}, {"name": "felimbs", "out": "FeLimbs.lean"}],
-        "aux_driver": {"exe": "scdriver", "ops": ["c14.screduce", "c14.scmuladd", "c14.sccanon", "c14.fe", "c14.fel"]},
+        "extractors": [{"name": "sclimbs", "out": "ScLimbs.lean"}, {"name": "felimbs", "out": "FeLimbs.lean"},
+                       {"name": "edpoints", "out": "EdPoints.lean"}],
+        "aux_driver": {"exe": "scdriver", "ops": ["c14.screduce", "c14.scmuladd", "c14.sccanon", "c14.fe", "c14.fel", "c14.pt"]},
         "extra_modules": ["PatVerif.Proofs.Sig", "PatVerif.Proofs.DER", "PatVerif.Proofs.ScReduce", "PatVerif.Proofs.ScMulAdd", "PatVerif.Proofs.ScScalar",
                           "PatVerif.Proofs.FeCarry", "PatVerif.Proofs.FeMul", "PatVerif.Proofs.FeMisc", "PatVerif.Proofs.FeBytes", "PatVerif.Proofs.FePow",
-                          "PatVerif.Proofs.FeAbs", "PatVerif.Proofs.FeField", "PatVerif.Proofs.FeSqrt"],
+                          "PatVerif.Proofs.FeAbs", "PatVerif.Proofs.FeField", "PatVerif.Proofs.FeSqrt", "PatVerif.Proofs.EdPoints"],
         "contradicts": "PatVerif.Props.C14",
     },
     "C15": {
@@ -344,11 +345,12 @@ CONFIG = {
         "trusted_base": COMMON_TB + ["Mathlib", "PatVerif/Exec/Ed25519"],
         "assumptions": ["A lies in the prime-order subgroup for unblind_blind",
                         "Model/GoInt.lean reads Go's int64 operators correctly where the generated side conditions hold"],
-        "extractors": [{"name": "sclimbs", "out": "ScLimbs.lean"}, {"name": "felimbs", "out": "FeLimbs.lean"}],
-        "aux_driver": {"exe": "scdriver", "ops": ["c14.screduce", "c14.scmuladd", "c14.sccanon", "c14.fe", "c14.fel"]},
+        "extractors": [{"name": "sclimbs", "out": "ScLimbs.lean"}, {"name": "felimbs", "out": "FeLimbs.lean"},
+                       {"name": "edpoints", "out": "EdPoints.lean"}],
+        "aux_driver": {"exe": "scdriver", "ops": ["c14.screduce", "c14.scmuladd", "c14.sccanon", "c14.fe", "c14.fel", "c14.pt"]},
         "extra_modules": ["PatVerif.Proofs.Group", "PatVerif.Proofs.Sig", "PatVerif.Proofs.ScReduce", "PatVerif.Proofs.ScMulAdd", "PatVerif.Proofs.ScScalar",
                           "PatVerif.Proofs.FeCarry", "PatVerif.Proofs.FeMul", "PatVerif.Proofs.FeMisc", "PatVerif.Proofs.FeBytes", "PatVerif.Proofs.FePow",
-                          "PatVerif.Proofs.FeAbs", "PatVerif.Proofs.FeField", "PatVerif.Proofs.FeSqrt"],
+                          "PatVerif.Proofs.FeAbs", "PatVerif.Proofs.FeField", "PatVerif.Proofs.FeSqrt", "PatVerif.Proofs.EdPoints"],
         "contradicts": "PatVerif.Props.C15",
     },
     "C16": {
